@@ -1,7 +1,7 @@
 """Fragment table (tools/py2v.py) for the products area (C04): the scalar decision code of
 `sparse/numba_backend/_common.py` that sits in front of the kernels.
 
-  g_dot            the whole body of `dot(a, b)`: the 1-d . 1-d special case (ValueError when the two
+  g_dot            the whole body of `dot(a, b)`: a 0-d operand (tensordot with axes=0), the 1-d . 1-d special case (ValueError when the two
                    lengths differ, else multiply and sum) and the choice of contraction axes handed to
                    tensordot (a_axis = -1, b_axis = -2, or -1 for a 1-d b).
   g_tensordot_0d   the block `if nda == 0 or ndb == 0:` of `tensordot`: a 0-d operand is multiplied
@@ -14,7 +14,8 @@ there) compares the parameters a_len and b_len, `x1.shape[axis]` is x1_ext, the
 calls that leave the scalar fragment return a tagged tuple describing the call:
   VTuple [VInt 0; a; b]            (a * b).sum()            (1-d . 1-d path of dot)
   VTuple [VInt 1; a_axis; b_axis]  tensordot(a, b, axes=(a_axis, b_axis))
-  VTuple [VInt 2; axis]            np.sum(x1 * x2, axis=axis, ...)
+  VTuple [VInt 2; axis]            np.sum(x1 * x2, axis=-1, ...) after moveaxis(x1, axis, -1), moveaxis(x2, axis, -1)
+  VTuple [VInt 3]                  tensordot(a, b, axes=0)  (a 0-d operand of dot: multiply by the scalar)
 The case chain of `matmul` and the zero-size shortcut of `tensordot` are not expressible with a
 block selector (statements without scalar effect in between); tools/sitegen/dot.py extracts them.
 """
@@ -36,6 +37,7 @@ FILES = {
                  "as_coo(a)": "Ok a",
                  "as_coo(b)": "Ok b",
                  "(a * b).sum()": "Ok (VTuple [VInt 0; a; b])",
+                 "tensordot(a, b, axes=0)": "Ok (VTuple [VInt 3])",
                  "tensordot(a, b, axes=(a_axis, b_axis))": "Ok (VTuple [VInt 1; a_axis; b_axis])",
              }),
         dict(name="g_tensordot_0d", file=CM, func="tensordot", callable=False,
@@ -56,7 +58,9 @@ FILES = {
                  "x1.shape[axis] != x2.shape[axis]": "py_ne x1_ext x2_ext",
                  "np.issubdtype(x1.dtype, np.complexfloating)": "Ok (VBool false)",
                  "np.conjugate(x1)": "Ok x1",
-                 "np.sum(x1 * x2, axis=axis, dtype=np.result_type(x1, x2))": "Ok (VTuple [VInt 2; axis])",
+                 "moveaxis(x1, axis, -1)": "Ok x1",
+                 "moveaxis(x2, axis, -1)": "Ok x2",
+                 "np.sum(x1 * x2, axis=-1, dtype=np.result_type(x1, x2))": "Ok (VTuple [VInt 2; axis])",
              }),
     ],
 }
